@@ -34,7 +34,7 @@ var badResHdrs = []string{"Set-Cookie", "set-cookie2", "Origin", "a b", "", "Acc
 var badMaxAge = []int{-2, 86401, -100, 1 << 30}
 var badStatus = []int{199, 300, 100, 404, -1, 1}
 
-const nPlantKinds = 12
+const nPlantKinds = 15
 
 func insertAt(l []string, pos int, v string) []string {
 	if len(l) == 0 {
@@ -121,6 +121,42 @@ func plant(c Cfg, p Planted) (Cfg, string) {
 		}
 		c.Origins = insertAt(c.Origins, p.Pos, "*")
 		return c, "* origin with PNA"
+	case 12, 13, 14:
+		// violations that touch NO list: a scalar is switched so that an origin the
+		// configuration already has becomes incompatible. Only where such an origin exists;
+		// otherwise the corresponding list-inserting violation is planted.
+		insecure, pslWild := false, false
+		for _, o := range c.Origins {
+			if pp, ok := splitPattern(o); ok && o != "*" {
+				if pp.Scheme == "http" && !isLoopbackish(pp.Host) && !isIPHost(pp.Host) {
+					insecure = true
+				}
+				if pp.Wild && (pp.Host == "com" || pp.Host == "github.io" || pp.Host == "co.uk") {
+					pslWild = true
+				}
+			}
+		}
+		switch {
+		case p.Kind%nPlantKinds == 12 && insecure:
+			c.Credentialed, c.TolInsecure = true, false
+			var rh []string // keep the rest valid under credentials
+			for _, h := range c.ResponseHeaders {
+				if h != "*" {
+					rh = append(rh, h)
+				}
+			}
+			c.ResponseHeaders = rh
+			return c, "credentials switched on over an insecure origin that is already listed"
+		case p.Kind%nPlantKinds == 13 && insecure && !c.PNANoCors:
+			c.PNA, c.TolInsecure = true, false
+			return c, "private-network access switched on over an insecure origin that is already listed"
+		case p.Kind%nPlantKinds == 14 && pslWild:
+			c.TolPSL = false
+			return c, "public-suffix toleration switched off under a listed public-suffix pattern"
+		}
+		q := p
+		q.Kind = []int{3, 3, 11}[p.Kind%nPlantKinds-12]
+		return plant(c, q)
 	default:
 		c.TolPSL = false
 		v := []string{"https://*.com", "https://*.github.io", "https://*.co.uk:*", "https://*.com."}[a%4]
